@@ -11,8 +11,8 @@ import (
 	"fmt"
 	"sync"
 
-	bitcoin_reader "github.com/tokenized/bitcoin_reader"
 	"github.com/google/uuid"
+	bitcoin_reader "github.com/tokenized/bitcoin_reader"
 	"github.com/tokenized/pkg/bitcoin"
 	"github.com/tokenized/pkg/merkle_proof"
 	"github.com/tokenized/pkg/wire"
@@ -62,6 +62,14 @@ func (r *Recorder) note(c Call) error {
 	}
 	r.Calls = append(r.Calls, c)
 	return nil
+}
+
+// IsProcessed reports whether the block store holds an entry for the block.
+func (r *Recorder) IsProcessed(h bitcoin.Hash32) bool {
+	r.mu.Lock()
+	defer r.mu.Unlock()
+	_, ok := r.Processed[h]
+	return ok
 }
 
 func (r *Recorder) Snapshot() []Call {
@@ -136,21 +144,21 @@ func MakeBlock(seed uint32, n int, mk func(seed uint32, extra int) *wire.MsgTx) 
 
 // Source is one simulated block source (a peer that was asked for a block).
 type Source struct {
-	ID        uuid.UUID
-	N         int
-	Hash      bitcoin.Hash32
-	Handler   bitcoin_reader.HandleBlock
-	OnStop    bitcoin_reader.OnStop
-	Started   bool // handler goroutine started
-	Cancelled bool // CancelBlockRequest was called
-	Ended     bool // stream ended (channel closed)
-	Dropped   bool // onStop was called
-	Ch        chan *wire.MsgTx
-	Fed       int
-	Done      chan error // handler return
-	Returned  bool
-	Result    error
-	mu        sync.Mutex
+	ID                uuid.UUID
+	N                 int
+	Hash              bitcoin.Hash32
+	Handler           bitcoin_reader.HandleBlock
+	OnStop            bitcoin_reader.OnStop
+	Started           bool // handler goroutine started
+	Cancelled         bool // CancelBlockRequest was called
+	Ended             bool // stream ended (channel closed)
+	Dropped           bool // onStop was called
+	Ch                chan *wire.MsgTx
+	Fed               int
+	Done              chan error // handler return
+	Returned          bool
+	Result            error
+	mu                sync.Mutex
 	CancelSeenStarted bool
 }
 
@@ -175,6 +183,10 @@ type Requestor struct {
 	// Plan decides the answer to the next RequestBlock: "ok", "none" (no node available), "error".
 	Plan     func(n int) string
 	Requests []bitcoin.Hash32
+	// ProcessedAtRequest[i]: the block of request i was already recorded as processed when the
+	// request was made (observed inside the call, so it does not depend on when the driver looks).
+	ProcessedAtRequest []bool
+	IsProcessed        func(bitcoin.Hash32) bool
 }
 
 var errSource = errors.New("simulated source error")
@@ -185,6 +197,7 @@ func (r *Requestor) RequestBlock(ctx context.Context, hash bitcoin.Hash32, handl
 	defer r.mu.Unlock()
 	n := len(r.Requests)
 	r.Requests = append(r.Requests, hash)
+	r.ProcessedAtRequest = append(r.ProcessedAtRequest, r.IsProcessed != nil && r.IsProcessed(hash))
 	answer := "ok"
 	if r.Plan != nil {
 		answer = r.Plan(n)
